@@ -16,3 +16,12 @@ def run(ctx, cases):
                key="dpcm")
     ctx.trusted += ["Dpcm.v: the float / double entries of the DPCM codec (f2dles, d2dles, dles2f, ...) are not modelled (they are lossy by definition); "
                     "C narrowing conversions int -> short / signed char are taken modulo 2^16 / 2^8 (gcc, clang)"]
+
+
+def run_sds(ctx, files):
+    h = vlib.cc_harness("kern_sds", ["kern_sds.c"], kind="asan")
+    m = vlib.build_model("sds", "XSds.v", "driver_sds.ml")
+    vlib.k_tie(ctx, "sds_sample_packing", "%s %d %d" % (h, ctx.seed, files), m,
+               "SDS files of all three subtypes written through sf_write_int (full-range ints, extremes, single bits): the 2 / 3 / 4 packed bytes of every sample of the "
+               "first two blocks against Sds.pack; the same files with arbitrary data bytes (bit 7 set in a quarter of them) read through sf_read_int against Sds.unpack",
+               key="sds_pack")
